@@ -1,3 +1,4 @@
+#include <iostream>
 // C09 harness (flavour I): exact variants on weights that are NOT exactly summable (decimal fractions). Every weighting
 // over a small decimal alphabet of every graph of G(n); oracle in exact integer arithmetic: each double is converted
 // exactly to a 128-bit fixed-point integer (scale 2^63; exact for doubles in [2^-10, 2^10]), the reference optimum is the
@@ -53,6 +54,9 @@ static void run_case(vr::Runner &R, const Cfg &cfg, const vg::EdgeList &el, cons
 
 int main(int argc, char **argv) {
     vr::Args A(argc, argv);
+#ifdef PARMCB_LOGGING
+    std::cout.setstate(std::ios_base::badbit);      // built against a config.hpp with PARMCB_LOGGING on: the library chats on std::cout (harness output uses stdio)
+#endif
     Cfg cfg; cfg.variants = vv::parse_variants(A.get("variants", "signed,fvs,iso,signed_tbb,fvs_tbb,iso_tbb"));
     vr::Runner R;
     R.nworkers = (int) A.geti("workers", 16);
